@@ -131,7 +131,7 @@ def run_history(ctx, vfs, iface, app, url_path, file_path, seq, start_frac, zone
                     "etag": [("If-None-Match", j["etag"])],
                     "lm": [("If-Modified-Since", j["lm"])],
                     "both": [("If-None-Match", j["etag"]), ("If-Modified-Since", j["lm"])],
-                    "list-first": [("If-None-Match", f'{j["etag"]}, "zzz"')],
+                    "list-first": [("If-None-Match", f'{j["etag"]}, "zzz"' if step % 2 else f'{j["etag"]} , "zzz"')],  # (a blank may also stand before the comma)
                     "list-mid": [("If-None-Match", f'"zzz", {j["etag"]}, "yyy"')],
                     "list-last": [("If-None-Match", f'"zzz",{j["etag"]}')],
                     "list-empty": [("If-None-Match", f', {j["etag"]},' if step % 2 else f'"a", , {j["etag"]}')],  # empty list members are legal (RFC 7230 7)
